@@ -59,6 +59,7 @@ def run(rep: Report, ctx: Any) -> str:
                       "and loop variables that come to hold it)")
 
     rep.rule("R08.11", PROPERTY_RULE_TEXT)
+    rep.rule("R08.13", FIXPOINT_RULE_TEXT)
     rep.rule("R08.12", "the diagnostic of an omitted piece reaches the caller: where a parser function records diagnostics in a local "
                        "accumulator - an error value put into a container it created empty, or into a field declared as a list of errors "
                        "of an object it keeps in such a container - every return that hands the accumulator back hands it back entire: the "
@@ -196,6 +197,8 @@ def run(rep: Report, ctx: Any) -> str:
     _property_objects_not_written(rep, ctx)
     # ---- R08.12: recorded diagnostics are returned entire -----------------------------------------------------------------------------
     _diagnostics_returned_entire(rep, ix)
+    # ---- R08.13: the retry over rounds is not one item's to end ------------------------------------------------------------------------
+    _fixpoint_not_decided_by_one_item(rep, ctx)
     rep.not_decided += ["byte equality of the output trees with and without the bad piece"]
     return LEVEL
 
@@ -236,6 +239,30 @@ def _nothing_stale_remains(rep: Report, ctx: Any) -> None:
     rule = getattr(c01, "_rebuilt_from_empty", None)
     rep.require(callable(rule), "the no-stale-module rule of C01 (c01._rebuilt_from_empty), which R08.10 evaluates")
     rule(_Under(rep, "R08.10"), ctx)
+
+
+FIXPOINT_RULE_TEXT = (
+    "the fixpoint over models is not one piece's to end: a worklist loop that re-queues the items it could not process yet (a model "
+    "whose allOf parent comes later in the document) runs another round as long as ANY item of the round got somewhere. What decides "
+    "about another round (what the `while` test reads, what the tests before a break / return of the round loop read - followed into "
+    "the private helpers of the round) is bound per item only monotonically: one constant, or a value accumulated from the variable "
+    "itself - never a value computed from the item alone, which lets the last item of a round decide and so lets a piece that can "
+    "never be processed take the retry away from the pieces that wait for it; some per-item binding can move it away from what the "
+    "round resets it to; and the errors recorded together with a re-queue start empty in every round (every error left at the end has "
+    "its model and the model's dependants removed: an item that got through in a later round must not be among them)")
+
+
+def _fixpoint_not_decided_by_one_item(rep: Report, ctx: Any) -> None:
+    """The retry loop of _process_models is a containment mechanism of this property (the order of definition does not matter): were
+    the decision about another round one item's, an invalid schema at the right place of the document would end the retry, and every
+    model still waiting for its parent would be reported and removed with all that depends on it.  The structural necessary
+    condition is the one C12 states for worklist rounds (found by role, indifferent to flag / counter / `while True` + break, polarity
+    and to helpers), so it is evaluated by that rule's own implementation and reported here under this property's id."""
+    from . import c12
+
+    rule = getattr(c12, "_round_loops", None)
+    rep.require(callable(rule), "the worklist-round rule of C12 (c12._round_loops), which R08.13 evaluates")
+    rule(_Under(rep, "R08.13"), ctx.py)
 
 
 def check_no_alias(rep: Report, ctx: Any, rid: str) -> None:
